@@ -43,7 +43,8 @@ PROPS_FILE = "Ipv8/C05/Props.lean"
 DRIVER = "drv_c05"
 RULE = ("history = 4..6 real TunnelCommunity nodes + 1 outsider, 1..6 circuits of 1..3 hops over the shared pool, "
         "40..70 actions drawn from {deliver any in-flight datagram, deliver a genuine cell from a foreign source address, send data, outside reply at an exit, ping, open "
-        "another circuit, legitimate destroy, clock tick past the created-cache, forged cell/CREATE/CREATED/destroy "
+        "another circuit, legitimate destroy, clock advance by 3..61 s (any subset of the created/create/retry caches "
+        "expires; retries are followed), transport completion of an exit socket, forged cell/CREATE/CREATED/destroy "
         "with any id, sender and signature}; one case per action; distinct = (action kind, role of the addressed id "
         "at the target, outcome); non-trivial = the action addressed an id that is in use at the target or moved a "
         "cell of a live circuit")
@@ -58,12 +59,13 @@ TRUSTED_BASE = [
     "TunnelExitSocket.tunnel_data - tied by the correspondence run only",
 ]
 ASSUMPTIONS = [
-    "session keys and circuit ids drawn by the code are fresh (hypothesis FreshChoice of the invariant theorems; "
-    "_generate_circuit_id only avoids ids in `circuits`)",
-    "a third party cannot produce a ciphertext that decrypts under a key it does not hold, nor a valid signature of "
-    "another peer (symbolic AEAD / signature model)",
-    "remove_tunnel_delay = 0 in the correspondence run (removal happens within the step); inactivity sweeps, retries "
-    "after time-outs and replays of genuine ciphertexts belong to C09/C04 and are not generated",
+    "ids, identifiers and session keys drawn by the code are inputs of the model (read back from the run); that they "
+    "are fresh / unpredictable is NOT proved - the oracle measures identifier predictability, `_generate_circuit_id` "
+    "only avoids ids in `circuits` (on_created refuses a next-hop id that is in use, mirrored)",
+    "AEAD: `AeadLaws` (dec/enc inverse, ciphertext determines key, direction and body) and distinct keys for distinct "
+    "entries are explicit hypotheses of the path / other-circuit theorems; signatures: `sigok` is an input of on_destroy",
+    "remove_tunnel_delay = 0 in the correspondence run; request-cache time-outs are independent events (any subset may "
+    "expire); do_remove sweeps, rendezvous relays and replays of genuine ciphertexts are not generated (C09/C04)",
 ]
 
 ZERO = ("0.0.0.0", 0)
@@ -82,13 +84,15 @@ class Pkt:
 
 class FakeTransport:
     def __init__(self, world, sock):
-        self.world, self.sock = world, sock
+        self.world, self.sock, self.closed = world, sock, False
+        world.transports.append(self)
 
     def sendto(self, data, dest):
-        self.world.on_exit_send(self.sock, data, dest)
+        if not self.closed:
+            self.world.on_exit_send(self.sock, data, dest)
 
     def close(self):
-        pass
+        self.closed = True
 
 
 class World:
@@ -121,10 +125,19 @@ class World:
                 world.orig_log.append(rec)
                 world.step_orig.append(rec)
 
+            def on_packet_from_circuit(self, source_address, data, circuit_id):
+                # on_data hands payloads that look like IPv8 packets of this community to this dispatcher
+                if len(data) > 26 and data[22] == 0x63 and data[23:26] == b"d5:":
+                    rec = (world.node_of[id(self)], circuit_id, source_address, data)
+                    world.orig_log.append(rec)
+                    world.step_orig.append(rec)
+                return super().on_packet_from_circuit(source_address, data, circuit_id)
+
         # TunnelExitSocket.enable / create_transports / sendto / queue stay REAL; only the opening of the two UDP
         # transports is replaced by an awaitable the harness completes when it chooses ("gate"), so that the phases
         # enable requested -> IPv4 open -> IPv6 open + queue flushed are separate, interleavable steps.
         self.gates: list[tuple] = []          # (exit socket, "4"|"6", future)
+        self.transports: list[FakeTransport] = []
 
         async def fake_open(proto):
             sock = proto.received_cb.__self__
@@ -171,6 +184,7 @@ class World:
                     a.network.add_verified_peer(b.my_peer)
                     a.network.discover_services(b.my_peer, [a.overlay.community_id])
         self.prefix = self.nodes[1].overlay.get_prefix()
+        IPV8_SHAPED["prefix"] = self.prefix
 
     # ---- plumbing --------------------------------------------------------------------------------------
     def ov(self, i):
@@ -322,17 +336,25 @@ class World:
             ser = self.ov(1).serializer
             auth, off = ser.unpack_serializable(BinMemberAuthenticationPayload, d, offset=23)
             pl, _ = ser.unpack_serializable(DestroyPayload, d, offset=off)
-            return (dst, "destroy", pl.circuit_id, 0, 0, self.key_idx.get(auth.public_key_bin, 999), 0)
+            return (dst, "destroy", pl.circuit_id, 0, 0, self.key_idx.get(auth.public_key_bin, 999), pl.reason)
         return (dst, "other", 0, 0, 0, 0, 0)
 
 
 # ---- data tags ---------------------------------------------------------------------------------------------------
-def mk_tag(direction: str, o: int, cid: int, seq: int) -> bytes:
-    return b"d5:" + f"{direction}:{o}:{cid}:{seq}".encode() + b":" + b"x" * 12 + b"e"
+IPV8_SHAPED = {"prefix": None}
+
+
+def mk_tag(direction: str, o: int, cid: int, seq: int, ipv8: bool = False) -> bytes:
+    body = b"d5:" + f"{direction}:{o}:{cid}:{seq}".encode() + b":" + b"x" * 12 + b"e"
+    if ipv8:      # looks like a packet of the tunnel community itself: the exit lets it pass, on_data dispatches it
+        return IPV8_SHAPED["prefix"] + b"\x63" + body
+    return body
 
 
 def parse_tag(data: bytes):
     try:
+        if data[23:26] == b"d5:":
+            data = data[23:]
         parts = data.split(b":")
         return parts[1].decode(), int(parts[2]), int(parts[3]), int(parts[4])
     except Exception:
@@ -375,6 +397,8 @@ class History:
             d["opening"] = self.opening
         if getattr(self, "reuse", None):
             d["reuse"] = self.reuse
+        if getattr(self, "expiry", None):
+            d["expiry"] = self.expiry
         if extra:
             d.update(extra)
         return d
@@ -402,6 +426,13 @@ class History:
         self.check_logs()
         if node:
             self.track_ids_and_extensions(node)
+            for tr in w.transports:
+                if not tr.closed and tr.sock.overlay.exit_sockets.get(tr.sock.circuit_id) is not tr.sock:
+                    tr.closed = True
+                    self.fail("TunnelCommunity.remove_exit_socket:transport-left-open",
+                              f"exit socket {tr.sock.circuit_id} of node {w.node_of[id(tr.sock.overlay)]} left the table but "
+                              f"its UDP transport is still open: it keeps receiving and would tunnel replies labelled "
+                              f"{tr.sock.circuit_id} to its old hop", {"node": node})
         self.stepno += 1
         if self.verbose:
             print(f"[{self.stepno - 1}] {line}\n      sends={sends} log={exp['log']}")
@@ -610,7 +641,8 @@ class History:
             self.fail("TunnelCommunity.on_data:data-accepted-from-non-neighbour",
                       f"node {node} delivered data on its circuit {h[2]} although the cell came from {src}, not from the "
                       f"circuit's first hop {hop_addr}", {"node": node})
-        if w.step_exit and ex_state is not None and not ex_state[0] and src[0] != ex_state[1]:
+        ex_after = o.exit_sockets.get(h[2])
+        if ex_state is not None and not ex_state[0] and src[0] != ex_state[1] and ex_after is ex and ex.enabled:
             self.fail("TunnelCommunity.exit_data:enabled-from-foreign-address",
                       f"node {node} enabled exit socket {h[2]} for a cell from {src} (hop is at {ex_state[1]})",
                       {"node": node})
@@ -657,7 +689,9 @@ class History:
         seq = self.seq
         dest = ("10.0.0.%d" % (1 + seq % 200), 2000 + seq % 1000)
         w.begin()
-        w.ov(o).send_data(c.hop.address, cid, dest, ZERO, mk_tag("F", o, cid, seq))
+        shaped = self.rng.random() < 0.3
+        self.ctx.count("payload:ipv8-shaped" if shaped else "payload:bt-shaped")
+        w.ov(o).send_data(c.hop.address, cid, dest, ZERO, mk_tag("F", o, cid, seq, shaped))
         w.drain()
         self.record(f"sd {o} {cid} {w.aidx(dest)} {tag_num('F', o, cid, seq)}", o, "send-data", True,
                     ("sd", bk["goal"]))
@@ -695,7 +729,9 @@ class History:
         seq = self.seq
         src = ("10.1.0.%d" % (1 + seq % 200), 3000 + seq % 1000)
         w.begin()
-        e.datagram_received_ipv4(mk_tag("B", o, cid, seq), src)
+        shaped = self.rng.random() < 0.3
+        self.ctx.count("payload:ipv8-shaped" if shaped else "payload:bt-shaped")
+        e.datagram_received_ipv4(mk_tag("B", o, cid, seq, shaped), src)
         w.drain()
         self.record(f"rp {i} {ecid} {w.aidx(src)} {tag_num('B', o, cid, seq)}", i, "outside-reply", True, ("rp",))
         return seq
@@ -739,24 +775,65 @@ class History:
                 self.record(f"rm{kind} {i} {cid}", i, "legit-remove-" + kind, True, ("rm", kind))
                 return
 
-    def act_tick(self):
+    def timers_state(self, i: int):
+        o = self.w.ov(i)
+        created, creates, retry = set(), set(), {}
+        for k, cache in o.request_cache._identifiers.items():
+            if k.startswith("created:"):
+                created.add(cache.circuit_id)
+            elif k.startswith("create:"):
+                creates.add(cache.number)
+            elif k.startswith("retry:"):
+                retry[cache.circuit.circuit_id] = cache.packet_identifier
+        return created, creates, retry
+
+    def act_advance(self, dt: float | None = None):
+        """The clock moves by dt seconds; every request-cache entry has its own timer (created 60 s, create 10 s, retry
+        10 s), so any subset may expire.  Each expiry becomes one protocol line (xq / xp / xr)."""
         w = self.w
-        # only while no circuit is being built (retry time-outs are C09's business)
-        for i in range(1, w.n + 1):
-            if any(c.state != "READY" for c in w.ov(i).circuits.values()):
-                return
-            if any(k.startswith("create:") for k in w.ov(i).request_cache._identifiers):
-                return
+        dt = dt if dt is not None else self.rng.choice([3, 7, 11, 25, 45, 52, 55, 58, 61])
+        before = {i: self.timers_state(i) for i in range(1, w.n + 1)}
         w.begin()
-        w.loop.advance(61.0)
+        w.loop.advance(float(dt))
         w.drain()
         w.drain()
-        if w.step_sends:
-            self.fail("harness:tick-sent", "clock tick produced datagrams")
-        self.lines.append("tick")
-        self.expect.append({"sends": [], "tables": None, "log": [], "step": self.stepno, "kind": "tick"})
-        self.ctx.case(("tick",), False)
-        self.ctx.count("action:tick")
+        self.refresh_bk()
+        self.ctx.count(f"advance:{dt}s")
+        ordered: list[Pkt] = []
+        for i in range(1, w.n + 1):
+            c0, p0, r0 = before[i]
+            c1, p1, r1 = self.timers_state(i)
+            lines = [f"xq {i} {cid}" for cid in sorted(c0 - c1)] + [f"xp {i} {num + 1}" for num in sorted(p0 - p1)]
+            for cid, ident in r0.items():
+                circ = w.ov(i).circuits.get(cid)
+                if circ is None:
+                    lines.append(f"xr {i} {cid}")
+                    self.ctx.count("retry-timeout:circuit-removed")
+                elif r1.get(cid) != ident or cid not in r1:
+                    if circ.unverified_hop is not None and cid in r1:
+                        lines.append(f"xr {i} {cid} ext={w.pidx(circ.unverified_hop.peer)},{r1[cid] + 1}")
+                        self.ctx.count("retry-timeout:retried")
+            mine = [p for p in w.step_sends if w.addr_idx.get(p.src) == i]
+            for k, line in enumerate(lines):
+                cid = int(line.split()[2])
+                pk = [p for p in mine if line.startswith("xr") and w.header(p)[2] == cid]
+                ordered.extend(pk)
+                sends = [w.header(p) for p in pk]
+                self.lines.append(line)
+                self.expect.append({"sends": sends, "tables": w.snapshot(i) if k == len(lines) - 1 else None,
+                                    "log": [], "step": self.stepno, "kind": "expire"})
+                self.ctx.case(("expire", line.split()[0], len(sends)), True)
+                self.ctx.count("action:expire-" + line.split()[0])
+                if len(c0 - c1) and (p0 & p1):
+                    self.ctx.count("expiry:created-gone-while-extension-pending")
+            if lines:
+                self.track_ids_and_extensions(i)
+        # keep the in-flight list in the order in which the lines (and hence the model) produced the datagrams
+        rest = [p for p in w.step_sends if not any(p is q for q in ordered)]
+        w.flight = [p for p in w.flight if not any(p is q for q in w.step_sends)] + ordered + rest
+        self.hist.extend(ordered + rest)
+        if rest:
+            self.fail("harness:advance-unexplained-datagram", f"time advance produced {[w.header(p) for p in rest]}")
         self.stepno += 1
 
     # ---- forged events -----------------------------------------------------------------------------------
@@ -827,9 +904,7 @@ class History:
                                   f"{what}: relayed to {h[0]} labelled {h[2]} but the relay entry says {ent[2]}/{ent[1]}")
                         return False
                     self.ctx.count("forged:blind-backward-relay")
-            if unkeyed:
-                self.ctx.count("forged:answered-by-hopless-circuit")
-            elif not ok and not allow_new_entries:
+            if not ok and not allow_new_entries:
                 self.fail(sig, f"{what}: node {node} answered with {[w.header(p) for p in w.step_sends]}", {"node": node})
                 return False
         return True
@@ -880,9 +955,6 @@ class History:
                     pl = PingPayload(cid, 7)
                 else:
                     pl = DataPayload(cid, ZERO, ("10.6.6.6", 666), mk_tag("B", 0, 0, 0))
-                    c0 = w.ov(node).circuits.get(cid)
-                    if c0 is not None and not c0.hops and tuple(c0.hop.address) == tuple(src):
-                        return      # a hop-less circuit has no keys: data "from" its pending hop's address is accepted
                 body = bytes([pl.msg_id]) + w.ov(att).serializer.pack_serializable(pl)[4:]
                 cell = CellPayload(cid, body, False, re_)
                 spec = "other:6" if pl.msg_id == 6 else f"data:0:{w.aidx(('10.6.6.6', 666))}:{tag_num('B', 0, 0, 0)}"
@@ -1042,7 +1114,8 @@ class History:
         if mode == "adjacent-tampered-id":
             # the neighbour signs a destroy for a different id; the id field is altered in flight
             signed_cid = cid ^ 1
-        pkt = bytearray(w.ov(signer).ezr_pack(DestroyPayload.msg_id, DestroyPayload(signed_cid, rng.choice([1, 2, 4]))))
+        reason = rng.choice([0, 1, 2, 4])
+        pkt = bytearray(w.ov(signer).ezr_pack(DestroyPayload.msg_id, DestroyPayload(signed_cid, reason)))
         sigok = True
         if mode == "adjacent-badsig":
             pkt[-1 - rng.randrange(60)] ^= 1 << rng.randrange(8)
@@ -1091,9 +1164,10 @@ class History:
             for (o, c2), bk in self.circs.items():
                 if not bk["alive"]:
                     bk["destroyed"] = True
-        self.record(f"fd {node} {w.aidx(src)} {signer} {cid} {int(sigok)}", node, "forge-destroy",
+        self.record(f"fd {node} {w.aidx(src)} {signer} {cid} {int(sigok)} {reason}", node, "forge-destroy",
                     role != "-", ("fd", mode, role, bool(removed)))
         self.ctx.count(f"destroy_mode:{mode}:{role}:{'removed' if removed else 'kept'}")
+        self.ctx.count(f"destroy_reason:{reason}")
 
     # ---- driver ------------------------------------------------------------------------------------------
     def flush(self, limit=600, gates=True):
@@ -1176,6 +1250,57 @@ class History:
             if not self.failed:
                 self.final_probe()
             self.ctx.count(f"reuse:histories:{second}")
+        finally:
+            w.close()
+
+    def run_expiry(self, late: int, rest: int, second: str, destroy_first: bool):
+        """Small-scope family "the created-cache (60 s) dies before the create-cache (10 s) of a late extension":
+        circuit X of node 1 is accepted by E(3) at T0; the EXTEND towards node 4 is held back and reaches E at T0+late;
+        at T0+late+rest the id's created-cache entry has expired while the extension is still pending; X's exit entry
+        is destroyed by its owner; a second party asks E for id X; then node 4's CREATED comes back."""
+        _random.seed(self.sc_seed)
+        self.w = World(4, self.rng)
+        w = self.w
+        try:
+            self.lines.append("reset 4")
+            self.expect.append({"sends": [], "tables": None, "log": [], "step": -1, "kind": "reset"})
+            peer2 = w.nodes[2].my_peer
+            flags2 = w.ov(1).candidates.pop(peer2, None)
+            key = self.act_open((1, 2, 4))
+            if flags2 is not None:
+                w.ov(1).candidates[peer2] = flags2
+            if key is None:
+                return
+            xid = key[1]
+            to3 = lambda h, p: w.addr_idx.get(p.dst) == 3     # noqa: E731
+            self.deliver_where(lambda h, p: to3(h, p) and h[3] == 1 and h[5] == 2)           # CREATE X at E  (T0)
+            self.deliver_where(lambda h, p: w.addr_idx.get(p.dst) == 1 and h[5] == 3)        # CREATED back: EXTEND is sent
+            held = lambda h, p: to3(h, p) and h[1] == "cell" and h[3] == 0 and h[2] == xid    # noqa: E731
+            if not any(held(w.header(p), p) for p in w.flight):
+                self.ctx.count("expiry-scenario:setup-incomplete")
+                return
+            self.act_advance(late)                     # the originator's retry cache times out meanwhile
+            self.deliver_where(held)                   # late EXTEND: E asks node 4 (create-cache starts now)
+            self.act_advance(rest)
+            if destroy_first:
+                self.force = {"kind": "destroy", "target": (3, xid), "src": w.addr(1), "mode": "adjacent"}
+                self.act_forge()                       # X's owner (node 1) destroys its exit entry at E
+                self.force = {}
+            if second == "originator":
+                w.ov(2)._generate_circuit_id = lambda: xid
+                self.act_open((2, 1, 3))
+                del w.ov(2)._generate_circuit_id
+                self.deliver_where(lambda h, p: to3(h, p) and h[3] == 1 and h[5] == 2 and w.addr_idx.get(p.src) == 2)
+                self.deliver_where(lambda h, p: w.addr_idx.get(p.dst) == 2 and h[3] == 1 and h[5] == 3)
+            else:
+                self.force = {"kind": "pt_create", "target": (3, xid), "src": w.addr(w.n + 1)}
+                self.act_forge()
+                self.force = {}
+            self.deliver_where(lambda h, p: w.addr_idx.get(p.dst) == 4 and h[3] == 1 and h[5] == 2)   # E's CREATE at node 4
+            self.deliver_where(lambda h, p: to3(h, p) and h[3] == 1 and h[5] == 3)                     # late CREATED at E
+            if not self.failed:
+                self.final_probe()
+            self.ctx.count(f"expiry-scenario:histories:{second}")
         finally:
             w.close()
 
@@ -1334,7 +1459,7 @@ class History:
                 elif r < 0.69:
                     self.act_legit_destroy()
                 elif r < 0.72:
-                    self.act_tick()
+                    self.act_advance()
                 elif r < 0.76:
                     self.act_redirect()
                 elif r < 0.83:
@@ -1399,6 +1524,9 @@ class KeyMap:
 def tables_equal(real: dict, model: dict, km: KeyMap) -> str | None:
     def ints(row):
         return [int(x) for x in row]
+    # rows are compared as sets keyed by circuit id (dict insertion order is an implementation detail)
+    real = {k: (sorted(v, key=lambda r: r[0]) if k in "CRE" else v) for k, v in real.items()}
+    model = {k: (sorted(v, key=lambda r: int(r[0])) if k in "CRE" else v) for k, v in model.items()}
     rc, mc = real["C"], model.get("C", [])
     if len(rc) != len(mc):
         return f"circuits: {len(rc)} real vs {len(mc)} model"
@@ -1433,7 +1561,7 @@ def tables_equal(real: dict, model: dict, km: KeyMap) -> str | None:
 def compare(ctx: Ctx, h: History, replies: list[str]):
     km = KeyMap()
     for line, exp, rep in zip(h.lines, h.expect, replies):
-        if exp["kind"] in ("reset", "tick"):
+        if exp["kind"] in ("reset",):
             if rep != "ok":
                 ctx.disagree(f"model answered {rep!r} to `{line}`", {"sc_seed": h.sc_seed, "step": exp["step"]})
                 return
@@ -1441,10 +1569,10 @@ def compare(ctx: Ctx, h: History, replies: list[str]):
         m = parse_reply(rep)
         why = None
         # sends: destination, kind, circuit id, plaintext flag, relay_early flag, and for plaintext cells msg id + identifier
-        rs = [(s[0], s[1], s[2], s[3], s[4], s[5] if s[1] == "destroy" or s[3] else 0, s[6] if s[3] else 0)
-              for s in exp["sends"]]
-        ms = [(s[0], s[1], s[2], s[3], s[4], s[5] if s[1] == "destroy" or s[3] else 0, s[6] if s[3] else 0)
-              for s in m["sends"]]
+        rs = [(s[0], s[1], s[2], s[3], s[4], s[5] if s[1] == "destroy" or s[3] else 0,
+               s[6] if s[1] == "destroy" or s[3] else 0) for s in exp["sends"]]
+        ms = [(s[0], s[1], s[2], s[3], s[4], s[5] if s[1] == "destroy" or s[3] else 0,
+               s[6] if s[1] == "destroy" or s[3] else 0) for s in m["sends"]]
         if rs != ms:
             why = f"datagrams sent: real {rs} vs model {ms}"
         elif exp["tables"] is not None and m["tables"] is None:
@@ -1534,7 +1662,21 @@ def run_reuses(ctx: Ctx, use_model: bool):
             fresh = [f for f in ctx.failures if not f["signature"].endswith("third-party-data-delivered-while-extending")]
             if len(fresh) >= 3 or len(ctx.disagreements) >= 3:
                 return
-    ctx.extra["id_reuse_enumeration"] = {"orders": len(reuse_orders()), "second_party": 2, "histories": n}
+    m = 0
+    for late, rest in ((55, 6), (52, 9), (51, 58), (30, 8)):
+        for second in ("originator", "outsider"):
+            for destroy_first in (True, False):
+                h = History(ctx, ctx.rng.getrandbits(48))
+                h.expiry = {"late": late, "rest": rest, "second": second, "destroy_first": destroy_first}
+                h.run_expiry(late, rest, second, destroy_first)
+                m += 1
+                if use_model and not h.failed:
+                    compare(ctx, h, ctx.driver().batch(h.lines))
+                fresh = [f for f in ctx.failures if not f["signature"].endswith("third-party-data-delivered-while-extending")]
+                if len(fresh) >= 3 or len(ctx.disagreements) >= 3:
+                    return
+    ctx.extra["id_reuse_enumeration"] = {"orders": len(reuse_orders()), "second_party": 2, "histories": n,
+                                         "partial_expiry_histories": m}
 
 
 def run(ctx: Ctx):
@@ -1556,7 +1698,10 @@ def search(ctx: Ctx, reason: str):
 def replay(ctx: Ctx, rec: dict):
     r = rec.get("replay", rec)
     h = History(ctx, r["sc_seed"], stop_at=None, verbose=True, do_sweep=bool(r.get("sweep")))
-    if r.get("reuse"):
+    if r.get("expiry"):
+        h.expiry = r["expiry"]
+        h.run_expiry(**r["expiry"])
+    elif r.get("reuse"):
         h.reuse = r["reuse"]
         h.run_reuse(r["reuse"]["order"], r["reuse"]["second"])
     elif r.get("opening"):
